@@ -1198,3 +1198,80 @@ def check_hash_many(ctx, o, fname, inc):
            ("stores outside the stage epilogues in regions %s; " % stray if stray else "") + ("; ".join(badloads[:2]) if badloads else "") or
            "%d regions: caller memory is written only by the stage epilogues (32 bytes per input) and read only at key[0..32), inputs[g] and the 64 bytes of each input at the block offset" % len(A.regions))
     return nstage
+
+
+def xof_zero_block_safe(o, fname):
+    """does the assembled xof_many return without storing when outblocks == 0?  Explore from the entry every path a ZERO count
+    can take: a conditional jump that directly follows a cmp/test of the count register against an immediate (or itself) is
+    decided for the value 0; every other conditional jump is explored both ways.  Returns (safe, witness text)."""
+    insns = o.funcs[fname]
+    idx = {i.addr: n for n, i in enumerate(insns)}
+    cnt = None
+    for i in insns[:6]:
+        if i.mn == "mov" and len(i.ops) == 2 and "[rsp" in i.ops[1]:
+            cnt = asmabi.canon_reg(i.ops[0])       # the 7th argument (outblocks) loaded from the caller's frame
+            break
+    if cnt is None:
+        return False, "the count register could not be identified"
+    work = [(0, None)]
+    seen = set()
+    while work:
+        k, flags = work.pop()
+        while k < len(insns):
+            if (k, flags) in seen:
+                break
+            seen.add((k, flags))
+            i = insns[k]
+            if i.mn == "ret":
+                break
+            if i.mn in ("cmp", "test") and cnt is not None and asmabi.canon_reg(i.ops[0]) == cnt:
+                if i.mn == "test" and asmabi.canon_reg(i.ops[1]) == cnt:
+                    flags = ("z",)
+                elif re.fullmatch(r"(0x[0-9a-f]+|\d+)", i.ops[1].strip()):
+                    flags = ("cmp0", int(i.ops[1], 0)) if i.mn == "cmp" else ("z",)
+                else:
+                    flags = None
+                k += 1
+                continue
+            if asmabi.is_jump(i.mn):
+                try:
+                    tgt = idx[int(i.ops[0].split()[0], 16)]
+                except (KeyError, ValueError):
+                    return False, "jump target outside the routine at +%#x" % (i.addr - insns[0].addr)
+                if i.mn == "jmp":
+                    k, flags = tgt, None
+                    continue
+                taken = None
+                if flags == ("z",):
+                    taken = {"je": True, "jz": True, "jne": False, "jnz": False}.get(i.mn)
+                elif flags is not None:
+                    imm = flags[1]          # flags of (0 - imm), unsigned
+                    taken = {"je": imm == 0, "jz": imm == 0, "jne": imm != 0, "jnz": imm != 0, "ja": False, "jnbe": False, "jae": imm == 0, "jnb": imm == 0, "jnc": imm == 0,
+                             "jb": imm != 0, "jc": imm != 0, "jbe": True, "jna": True}.get(i.mn)
+                if taken is None:
+                    work.append((tgt, None))
+                    k, flags = k + 1, None
+                elif taken:
+                    k, flags = tgt, None
+                else:
+                    k, flags = k + 1, None
+                continue
+            if i.ops and "[" in i.ops[0] and "rsp" not in i.ops[0] and "rbp" not in i.ops[0] and i.mn not in asmabi.NO_WRITE and not i.mn.startswith("prefetch"):
+                return False, "with outblocks == 0 the store `%s` at +%#x is reached" % (" ".join(i.raw.split("\t", 1)[-1].split()), i.addr - insns[0].addr)
+            if i.ops and asmabi.canon_reg(i.ops[0]) == cnt and not (i.mn == "mov" and "[rsp" in i.ops[-1] and k < 6):
+                # the count changes: it is no longer known to be zero, later tests of it are explored both ways
+                cnt = None
+            flags = None
+            k += 1
+    return True, "every path a zero count can take reaches ret without a store to caller memory"
+
+
+def rule_X0asm(ctx):
+    """precondition of the assembled xof_many kernels: record whether each returns without storing for outblocks == 0"""
+    res = {}
+    for o in objects(ctx):
+        for fname in sorted(o.funcs):
+            if op_of(fname) == "xof_many":
+                res["%s:%s" % (fname, o.flavour)] = xof_zero_block_safe(o, fname)
+    ctx.extra["xof_zero_block_safe"] = {k: dict(safe=v[0], witness=v[1]) for k, v in res.items()}
+    return res
